@@ -41,7 +41,7 @@ def gen_value(rng, depth=0, opaque=0.0):
   return {'d': [[kk, gen_value(rng, depth + 1, opaque)] for kk in keys]}
 
 
-def gen_sig(rng, kind, w_required=0.0, w_opaque_default=0.0, max_params=5):
+def gen_sig(rng, kind, w_required=0.0, w_opaque_default=0.0, max_params=5, w_posonly=0.0):
   n = rng.randint(0, max_params)
   names = rng.sample(PNAMES, n)
   shapes = sorted(rng.choice(['plain', 'plain', 'dflt', 'dflt', 'kwonly', 'kwonly_dflt']) for _ in range(n))
@@ -65,7 +65,12 @@ def gen_sig(rng, kind, w_required=0.0, w_opaque_default=0.0, max_params=5):
       kwonly.append([nm, None])
     else:
       kwonly.append([nm, default()])
-  return {'pos': pos, 'kwonly': kwonly, 'varargs': rng.random() < 0.25, 'varkw': rng.random() < 0.3}
+  sig = {'pos': pos, 'kwonly': kwonly, 'varargs': rng.random() < 0.25, 'varkw': rng.random() < 0.3}
+  own = len(pos) - (0 if kind == 'fn' else 1)
+  if own and rng.random() < w_posonly:
+    # the first k of its own positional parameters are positional-only (`def f(a, b, /, c)`); `self` / `cls` counts
+    sig['posonly'] = rng.randint(1, own) + (0 if kind == 'fn' else 1)
+  return sig
 
 
 def sig_names(sig, kind):
@@ -158,9 +163,12 @@ def gen_call(rng, reg, enter, w_required=0.0, w_bad=0.05):
   pos, kwo = sig_names(sig, kind)
   args, kwargs = [], []
   still_positional = True
-  for nm in pos:
+  n_po = max(0, sig.get('posonly', 0) - (0 if kind == 'fn' else 1))
+  for i_nm, nm in enumerate(pos):
     r = rng.random()
     val = REQ if rng.random() < w_required else caller_value(rng)
+    if i_nm < n_po and 0.4 <= r < 0.65:
+      r = 0.9   # a positional-only parameter is never passed by keyword
     if still_positional and r < 0.4:
       args.append(val)
     elif r < 0.65:
@@ -252,6 +260,10 @@ def param_classes(reg):
   out = {}
   for n in pos + kwo:
     out[n] = 'valid'
+  if not sig['varkw']:
+    # a positional-only parameter cannot take a value by keyword, which is how Gin supplies one (D56)
+    for n in pos[:max(0, sig.get('posonly', 0) - (0 if kind == 'fn' else 1))]:
+      out[n] = 'unknown'
   if sig['varkw']:
     out['anyk'] = 'valid'
   else:
